@@ -83,7 +83,7 @@ static void one_round(long r, bool concurrent, const char* cname)
                 sc.push_back(Act{'A', static_cast<int>(rng.below(4)), rng.chance(35) ? static_cast<int>(rng.below(3)) : -1, rng.chance(8)});
                 planned++;
             } else if (k < 70) sc.push_back(Act{'D', 0, 0, false});
-            else if (k < 80) sc.push_back(Act{'T', static_cast<int>(rng.below(3)), 0, false});
+            else if (k < 80) sc.push_back(Act{'T', static_cast<int>(rng.below(4)), 0, false});
             else if (k < 92) sc.push_back(Act{'S', 0, 0, false});
             else sc.push_back(Act{'Y', 0, 0, false});
         }
@@ -144,7 +144,7 @@ static void one_round(long r, bool concurrent, const char* cname)
                         break;
                     }
                     case 'D': (void)dd->destroyObjects(); break;
-                    case 'T': (void)dd->destroyObjects(std::chrono::milliseconds(a.hold == 0 ? 0 : a.hold == 1 ? 3 : 6)); break;
+                    case 'T': (void)dd->destroyObjects(std::chrono::milliseconds(a.hold == 0 ? 0 : a.hold == 1 ? 3 : a.hold == 2 ? 6 : 120)); break;  // 120 ms: the unlock / sleep / re-lock loop
                     case 'S': {
                         size_t s = dd->size();
                         if (s > static_cast<size_t>(cx.added.load(std::memory_order_relaxed))) vrf::violation("oracle:size_larger_than_ever_added", "{}");
